@@ -90,3 +90,10 @@ impl Bytes {
     #[verifier::external_body]
     pub fn new() -> (r: Bytes) ensures r.data == Seq::<u8>::empty() { unimplemented!() }
 }
+
+/// http::Request<B>
+pub struct Request<B> { pub parts: Parts, pub body: B }
+impl<B> Request<B> {
+    #[verifier::external_body]
+    pub fn into_parts(self) -> (r: (Parts, B)) ensures r.0 == self.parts, r.1 == self.body { unimplemented!() }
+}
